@@ -184,9 +184,21 @@ def run_realnet(cfg, out):
     sent_by_port = {}            # local port -> set of payloads
     counters = [0] * n
     silent = set()
-    t_end = time.time() + cfg.get("seconds", 3.0)
     for i, cl in enumerate(clients):
         cl.connect(("127.0.0.1", port))
+    # on a loaded machine the first handshakes can take a while: the action phase starts once somebody is connected
+    t_wait = time.time() + 20.0
+    while time.time() < t_wait and not any(cl.connected() for cl in clients):
+        for cl in clients:
+            try:
+                cl.update()
+            except Exception:
+                pass
+            if cl.conn is not None and getattr(cl.conn.status, "value", 0) == 4:
+                cl.forceDisconnect()
+                cl.connect(("127.0.0.1", port))
+        time.sleep(1 / 200)
+    t_end = time.time() + cfg.get("seconds", 3.0)
     while time.time() < t_end:
         for i, cl in enumerate(clients):
             if i in silent:
